@@ -455,6 +455,53 @@ func (d *db) apply(op simrt.Op) {
 		}
 		delete(d.m.idx, S[0])
 		d.last = "rmindex " + S[0]
+	case "multi": // S=[index,field] I=[node,row,col...]: Set(col,f=row)... Count(Row(f=row)) Row(f=row) in ONE request
+		ix, f := d.lookup(S)
+		if f == nil || f.typ != "set" {
+			return
+		}
+		row := uint64(I[1])
+		q := ""
+		var wantChanged []bool
+		for _, c := range I[2:] {
+			q += fmt.Sprintf("Set(%d, %s=%d) ", c, f.name, row)
+			wantChanged = append(wantChanged, !f.row(row)[uint64(c)])
+			f.setBit(row, uint64(c), 0)
+			if ix.track {
+				ix.exists[uint64(c)] = true
+			}
+		}
+		q += fmt.Sprintf("Count(Row(%s=%d)) Row(%s=%d)", f.name, row, f.name, row)
+		res, err := d.query(d.node(I[0]), ix.name, q)
+		d.last = q
+		if err != nil {
+			d.c.Fail("write-error", "%s: %v", q, err)
+			return
+		}
+		if len(res) != len(wantChanged)+2 {
+			d.fail("multi-call", "%s returned %d results", q, len(res))
+			return
+		}
+		for i, w := range wantChanged {
+			if got, _ := res[i].(bool); got != w {
+				d.fail("changed-flag", "call %d of %s returned %v want %v", i, q, res[i], w)
+				return
+			}
+		}
+		want := sortedU64(f.row(row))
+		if n, _ := res[len(res)-2].(uint64); int(n) != len(want) {
+			d.fail("multi-call", "%s: Count in the same request = %v, want %d (the calls of a request run in order)", q, res[len(res)-2], len(want))
+			return
+		}
+		if rr, ok := res[len(res)-1].(*pilosa.Row); !ok || fmtU64(rr.Columns()) != fmtU64(want) {
+			got := "?"
+			if ok {
+				got = fmtU64(rr.Columns())
+			}
+			d.fail("multi-call", "%s: Row in the same request = %s want %s (the calls of a request run in order)", q, got, fmtU64(want))
+			return
+		}
+		d.c.Probe("multi-call-requests")
 	case "set": // S=[index,field] I=[row,col,node,ts]
 		ix, f := d.lookup(S)
 		if f == nil {
